@@ -3,7 +3,8 @@ import re
 import core, gen, frames as F
 from props.base import PropBase
 
-KINDS = {"df0": 0, "df4": 4, "df5": 5, "df11": 11, "df16": 16, "tc11": 17, "tc4": 17, "tc19.1": 17, "df18": 18, "df20": 20, "df21": 21, "df24": 24}
+KINDS = {"df0": 0, "df4": 4, "df5": 5, "df11": 11, "df16": 16, "tc11": 17, "tc4": 17, "tc19.1": 17, "df18": 18, "df20": 20, "df21": 21, "df24": 24,
+         "df19": 19, "df22": 22, "df25": 25, "df28": 28, "df31": 31}
 
 def last_counter_line(stdout, seg_no):
     m = re.search(r"@@SEG %d BEGIN(.*?)@@SEG %d END" % (seg_no, seg_no), stdout, re.S)
